@@ -101,11 +101,17 @@ def _gen(seed: int, i: int, tier: str) -> dict:
 
 
 def gen(seed: int, i: int, tier: str) -> dict:
+    if i % 4 == 3:
+        from vsim.universe import gen_universe
+        return gen_universe(random.Random(f"U:C10:{seed}:{i}"), tier)
     scn = _gen(seed, i, tier)
     return G.maybe_tcp(random.Random(f"C10link:{seed}:{i}"), scn)
 
 
 def run(scn):
+    if scn.get("kind") == "universe":
+        from vsim.universe import run_universe
+        return run_universe(scn, PROP, ASPECTS, keep=None)
     st = {"rejects": {}, "presented_after_reject": set(), "failed_for": set(), "nodes": set(), "req_writes": 0}
     proto = scn["cfg"]["pin"]
 
